@@ -100,6 +100,8 @@ def run(ctx: Ctx):
     try:
         for prov in ("zoneinfo", "pytz"):
             tzp.use(prov)
+            from vf import preludes
+            preludes.slash_zones(ids[:40])      # history: calendars that re-define IANA ids written with a leading slash
             for tzid in ids:
                 tz = tzp.timezone(tzid)
                 if tz is None:
